@@ -33,9 +33,12 @@ def _pair(leaf, fmt):
     return f
 
 
-def make_kinds(g="G", garg="T", lt="'a"):
+def make_kinds(g="G", garg="T", lt="'a", full=False):
     """Field kinds; `g` is the name of the generic parameter used by G-kinds, `garg` the verif_rt
     type it will be instantiated with."""
+    # full=True: expressions that need syn's `full` feature (array / tuple literals) instead of helper calls
+    ARR = "[%s, %s]" if full else RT + "arr2(%s, %s)"
+    TUP = "(%s, %s)" if full else RT + "pair(%s, %s)"
     T, Ct, P = _leaf("T"), _leaf("Ct"), _leaf("P")
     gl = _leaf(garg)
     gcaps = {"T": ALLCAPS - {"Copy"}, "Ct": ALLCAPS,
@@ -47,9 +50,9 @@ def make_kinds(g="G", garg="T", lt="'a"):
         Kind("P", RT + "P", {"Debug", "Clone", "PartialEq", "PartialOrd", "Default"}, 3, P),
         Kind("OptT", "::core::option::Option<%sT>" % RT, nocopy, 3, _opt(T)),
         Kind("OptCt", "::core::option::Option<%sCt>" % RT, ALLCAPS, 3, _opt(Ct)),
-        Kind("ArrT", "[%sT; 2]" % RT, nocopy, 3, _pair(T, RT + "arr2(%s, %s)")),
-        Kind("ArrCt", "[%sCt; 2]" % RT, ALLCAPS, 3, _pair(Ct, RT + "arr2(%s, %s)")),
-        Kind("TupT", "(%sT, %sT)" % (RT, RT), nocopy, 3, _pair(T, RT + "pair(%s, %s)")),
+        Kind("ArrT", "[%sT; 2]" % RT, nocopy, 3, _pair(T, ARR)),
+        Kind("ArrCt", "[%sCt; 2]" % RT, ALLCAPS, 3, _pair(Ct, ARR)),
+        Kind("TupT", "(%sT, %sT)" % (RT, RT), nocopy, 3, _pair(T, TUP)),
         Kind("BoxT", "::std::boxed::Box<%sT>" % RT, nocopy, 3,
              lambda s, sl, a: "::std::boxed::Box::new(%s)" % T(s, sl, a)),
         Kind("RefT", "&%s %sT" % (lt, RT), ALLCAPS - {"Default"}, 3,
@@ -57,7 +60,7 @@ def make_kinds(g="G", garg="T", lt="'a"):
         Kind("G", g, gcaps, 3, gl, needs={"G"}),
         Kind("OptG", "::core::option::Option<%s>" % g, gcaps, 3, _opt(gl), needs={"G"}),
         Kind("ArrG", "[%s; 2]" % g, gcaps - {"Default"} if False else gcaps, 3,
-             _pair(gl, RT + "arr2(%s, %s)"), needs={"G"}),
+             _pair(gl, ARR), needs={"G"}),
         Kind("VecG", "::std::vec::Vec<%s>" % g, gcaps - {"Copy"}, 3,
              lambda s, sl, a: "::std::vec::Vec::new()" if a == 0 else "%svec1(%s)" % (RT, gl(s, sl, a - 1)), needs={"G"}),
         Kind("NestG", "::core::option::Option<::core::option::Option<%s>>" % g, gcaps, 3,
@@ -75,7 +78,7 @@ def make_kinds(g="G", garg="T", lt="'a"):
     gen_leaf = lambda side, slot, a: "<%s as %sPayload>::mkp(%s, %d, %d)" % (g, RT, side, slot, a)
     d["G"].dexpr = gen_leaf
     d["OptG"].dexpr = _opt(gen_leaf)
-    d["ArrG"].dexpr = _pair(gen_leaf, RT + "arr2(%s, %s)")
+    d["ArrG"].dexpr = _pair(gen_leaf, ARR)
     d["VecG"].dexpr = lambda s, sl, a: "::std::vec::Vec::new()" if a == 0 else "%svec1(%s)" % (RT, gen_leaf(s, sl, a - 1))
     d["NestG"].dexpr = lambda s, sl, a: ("::core::option::Option::None" if a == 0 else
                                          "::core::option::Option::Some(::core::option::Option::None)" if a == 1 else
